@@ -22,12 +22,12 @@ VMP = L + "build::opcode::vm::VM::"
 TRX = L + "build::opcode::translate::AST::"
 IDX = "<alloc::vec::Vec<T, A> as core::ops::index::Index<I>>::index"
 IDXM = "<alloc::vec::Vec<T, A> as core::ops::index::IndexMut<I>>::index_mut"
+# (the hooks' `panic!("BUG: ... - translator emitted wrong opcode sequence")` sites are discharged by message, wherever they are written:
+#  rules/c04.py discharge_local; the printer's `curr_indent -= indent_size` sites by the path-sensitive balance idiom)
 STACK = ("translator-stack", "\"BUG: stack underflow\": the translator pushes every operand this hook pops")
 
 TABLE = {
     # ---- type checker
-    ("<ucglib::ast::Expression as ucglib::ast::typecheck::DeriveShape>::derive_shape", "unwrap", "Option::unwrap"):
-        (1, "guarded-by-shape", "shapes.pop() right after `shapes.len() == 1`"),
     ("<ucglib::ast::FuncDef as ucglib::ast::typecheck::DeriveShape>::derive_shape::{closure#2}", "unwrap", "Option::unwrap"):
         (1, "just-inserted", "sym_table was filled from the same argdefs a few lines above"),
     ("<ucglib::ast::typecheck::Checker as ucglib::ast::walk::Visitor>::leave_expression", "assert", "Overflow(Sub usize)"):
@@ -36,10 +36,6 @@ TABLE = {
         (2, "equal-length", "both vectors are indexed below left_args.len() after `left.args.len() != right.args.len()` returned"),
     (L + "ast::typecheck::Checker::result", "unwrap", "Option::unwrap"):
         (1, "guarded-by-shape", "first element of err_stack on the !is_empty() edge"),
-    (L + "ast::typecheck::derive_call_shape", "unwrap", "Option::unwrap"):
-        (1, "guarded-by-shape", "ret_shapes.pop() right after `ret_shapes.len() == 1`"),
-    (L + "ast::typecheck::derive_dot_expression", "unwrap", "Option::unwrap"):
-        (3, "guarded-by-shape", "results.pop() right after `results.len() == 1`"),
     (L + "build::ir::Val::equal", "precond", IDX):
         (2, "equal-length", "rdef[i] with i from enumerate() over ldef after `ldef.len() != rdef.len()` returned"),
     # ---- binary
@@ -48,12 +44,6 @@ TABLE = {
     ("ucg::test_command", "unwrap", "Result::unwrap"): (1, "process-environment", "std::env::current_dir()"),
     ("ucg::fmt_dir", "unwrap", "Result::unwrap"): (1, "process-environment", "a directory entry that cannot be read"),
     # ---- printer
-    (L + "ast::printer::AstPrinter::render_expr", "assert", "Overflow(Sub usize)"):
-        (4, "balanced", "curr_indent -= indent_size after the matching += in the same arm"),
-    (L + "ast::printer::AstPrinter::render_expr", "unwrap", "Option::unwrap"):
-        (1, "guarded-by-shape", "argdefs.first() right after `argdefs.len() == 1`"),
-    (L + "ast::printer::AstPrinter::render_list_def", "assert", "Overflow(Sub usize)"): (1, "balanced", "curr_indent -= indent_size after the matching +="),
-    (L + "ast::printer::AstPrinter::render_tuple_def", "assert", "Overflow(Sub usize)"): (1, "balanced", "curr_indent -= indent_size after the matching +="),
     (L + "ast::printer::AstPrinter::render_missed_comments", "assert", "Overflow(Sub usize)"):
         (1, "guarded-by-shape", "`line - 1` is evaluated only when next_comment_line <= line and comment lines start at 1"),
     # ---- build
@@ -66,17 +56,6 @@ TABLE = {
     (L + "build::format::ExpressionTemplate::consume_expr", "assert", "Overflow(Sub i32)"): (1, "input-bounded", "one decrement per `}` of the template (i32, may go negative, never near MIN)"),
     (L + "build::opcode::environment::Environment::populate_stdlib", "unwrap", "Result::unwrap"): (1, "build-time-constant", "the embedded std/*.ucg files parse"),
     # ---- hooks: stack underflow
-    (RTB + "assert", "panic", "panic!"): (1,) + STACK,
-    (RTB + "convert", "panic", "panic!"): (1,) + STACK,
-    (RTB + "filter", "panic", "panic!"): (2,) + STACK,
-    (RTB + "import", "panic", "panic!"): (1,) + STACK,
-    (RTB + "include", "panic", "panic!"): (2,) + STACK,
-    (RTB + "map", "panic", "panic!"): (2,) + STACK,
-    (RTB + "out", "panic", "panic!"): (1,) + STACK,
-    (RTB + "range", "panic", "panic!"): (3,) + STACK,
-    (RTB + "reduce", "panic", "panic!"): (3,) + STACK,
-    (RTB + "regex", "panic", "panic!"): (2,) + STACK,
-    (RTB + "trace", "panic", "panic!"): (3, "translator-stack", "stack underflow / the Debug arm always pushes the rendered expression as a Str first"),
     # ---- hooks: parallel vectors
     (RTB + "filter", "precond", IDX): (3, "parallel-vectors", "position list indexed by the enumerate() counter of the value list of the same Composite"),
     (RTB + "map", "precond", IDX): (6, "parallel-vectors", "position list indexed by the enumerate() counter of the value list; fval[0] / fval[1] after `fval.len() != 2` returned"),
@@ -126,7 +105,6 @@ TABLE.update({
     (LSP + "analysis::collect_inner_import_paths", "assert", "BoundsCheck()"): (2, "guarded-by-shape", "binding_ranges has one entry per Let / Constraint statement of the same ast and binding_idx counts them"),
     (LSP + "analysis::ucg_pos_to_range", "assert", "Overflow(Add u32)"): (1, "input-bounded", "column of a token of the document, minus one, plus one"),
     (LSP + "collect_dot_path", "precond", IDX): (5, "guarded-by-shape", "idx comes from position() over the same tokens; i - 1 and i - 2 under `while i >= 2`; i never grows"),
-    (LSP + "collect_dot_path", "assert", "Overflow(Sub usize)"): (3, "guarded-by-shape", "i - 1, i - 2, i -= 2 under `while i >= 2`"),
     (LSP + "find_definition", "precond", IDX): (2, "guarded-by-shape", "path[0] and path[1..]: collect_dot_path only returns paths of length >= 2"),
     (LSP + "find_definition", "assert", "BoundsCheck()"): (2, "guarded-by-shape", "fields[0]: fields = path[1..] of a path of length >= 2"),
     (LSP + "find_definition", "precond", SLICE_IDX): (2, "guarded-by-shape", "fields[1..] after `fields.len() == 1` returned"),
